@@ -13,6 +13,7 @@ Pipeline (DESIGN.md 2.1):
 """
 import collections
 import glob
+import hashlib
 import json
 import os
 import re
@@ -75,23 +76,42 @@ def jsonable(c):
     return {k: (sorted(v) if isinstance(v, set) else v) for k, v in c.items()}
 
 
+def spec_key(what):
+    """The exhaustive TLC runs depend only on the specification files and their constants (never on /repo, the
+    seed or the harness): their results are reused while those are unchanged (marked `reused` in the evidence)."""
+    h = hashlib.sha256()
+    for f in sorted(glob.glob(os.path.join(SPEC_DIR, "*.tla"))):
+        h.update(os.path.basename(f).encode())
+        with open(f, "rb") as fh:
+            h.update(hashlib.sha256(fh.read()).digest())
+    h.update(json.dumps(what, sort_keys=True, default=sorted).encode())
+    return h.hexdigest()[:24]
+
+
 def run_mc(tier, result, errors):
     try:
         d = vk.scratch_spec(SPEC_DIR)
         cfgs = mc_configs(tier)
 
         def one(name):
+            key = spec_key(["mc", name, jsonable(cfgs[name]), MC_PROPS, MC_WITNESS[name]])
+            hit = vk.cache_get(FAMILY + "_mc", key)
+            if hit is not None:
+                hit["reused"] = True
+                return name, hit
             cfg = os.path.join(d, "MC_%s.cfg" % name)
             vk.write_cfg(cfg, "Spec", cfgs[name], invariants=["Inv"], properties=MC_PROPS, constraint="Bound", view="View")
-            r = vk.tlc_mc(d, "MC_Handshake", cfg, workers=4, timeout=400 if tier == "quick" else 2400)
+            r = vk.tlc_mc(d, "MC_Handshake", cfg, workers=4, timeout=3000 if tier == "quick" else 7200)
             seen = set(re.findall(r'<<"WITNESS", "([A-Za-z0-9]+)">>', r["out"]))
             missing = [w for w in MC_WITNESS[name] if w not in seen]
             if missing:
                 raise vk.Infra("vacuous model check (%s): never witnessed %s" % (name, missing))
-            return name, {"distinct": r["distinct"], "generated": r["generated"], "depth": r["depth"],
-                          "witnessed": sorted(seen), "constants": jsonable(cfgs[name])}
+            res = {"distinct": r["distinct"], "generated": r["generated"], "depth": r["depth"],
+                   "witnessed": sorted(seen), "constants": jsonable(cfgs[name]), "reused": False}
+            vk.cache_put(FAMILY + "_mc", key, res)
+            return name, res
         out = {}
-        for name, r in vk.pmap(one, list(cfgs), 2 if tier == "quick" else 2):
+        for name, r in vk.pmap(one, list(cfgs), 2):
             out[name] = r
         result["mc_handshake"] = out
         shutil.rmtree(d, ignore_errors=True)
@@ -102,11 +122,19 @@ def run_mc(tier, result, errors):
 # ------------------------------------------------------------------------------------------ version function table
 
 def gen_version_cases(tier, workdir):
+    """TLC enumerates the inputs of the version functions (and checks the transcription against its own contract).
+    The enumeration depends only on the specification: it is kept while the spec files are unchanged."""
+    key = spec_key(["cases", tier])
+    keep = os.path.join(vk.CACHE, "results", FAMILY + "_cases")
+    os.makedirs(keep, exist_ok=True)
+    kept = os.path.join(keep, key + ".ndjson")
+    if os.path.exists(kept):
+        return [l for l in open(kept) if l.strip()]
     d = vk.scratch_spec(SPEC_DIR)
     out = os.path.join(workdir, "vcases.ndjson")
     cfg = os.path.join(d, "Cases.cfg")
     vk.write_cfg(cfg, "Spec", dict(TIER=tier, OutFile=out))
-    r = vk.tlc_mc(d, "Cases_Versions", cfg, workers=1, timeout=600 if tier == "quick" else 2400)
+    r = vk.tlc_mc(d, "Cases_Versions", cfg, workers=1, timeout=3000 if tier == "quick" else 7200)
     m = re.search(r'<<"CASES", (\d+)>>', r["out"])
     shutil.rmtree(d, ignore_errors=True)
     if not m or not os.path.exists(out):
@@ -115,6 +143,10 @@ def gen_version_cases(tier, workdir):
     lines = [l for l in open(out) if l.strip()]
     if len(lines) != n:
         raise vk.Infra("version case enumeration: %d cases announced, %d written" % (n, len(lines)))
+    for f in sorted(glob.glob(os.path.join(keep, "*.ndjson")), key=os.path.getmtime)[:-3]:
+        os.remove(f)
+    shutil.copyfile(out, kept + ".tmp")
+    os.replace(kept + ".tmp", kept)
     return lines
 
 
